@@ -11,6 +11,7 @@ import (
 	"regexp"
 	"sort"
 	"strings"
+	"sync"
 
 	"golang.org/x/tools/go/packages"
 	"golang.org/x/tools/go/ssa"
@@ -652,7 +653,8 @@ func (fc *FnCtx) noteRead2(term, row, idx string) {
 		fc.closedGround(term, name, sSel(sSel(term, row), idx), row+"@"+idx)
 	}
 	if info, ok := fc.frames[term]; ok {
-		for prow, idxs := range info.partial {
+		for _, prow := range sortedKeys(info.partial) {
+			idxs := info.partial[prow]
 			var cs []string
 			cs = append(cs, sEq(row, prow))
 			for _, ix := range idxs {
@@ -1135,7 +1137,11 @@ func (fr *Frame) rpo() []*ssa.BasicBlock {
 func typesNewPointer(t types.Type) types.Type { return types.NewPointer(t) }
 
 // ancestors of b in the loop-cut control-flow DAG (including b)
+var ancMu sync.Mutex
+
 func (fc *FnCtx) ancestors(b *ssa.BasicBlock) map[*ssa.BasicBlock]bool {
+	ancMu.Lock()
+	defer ancMu.Unlock()
 	if fc.ancCache == nil {
 		fc.ancCache = map[*ssa.BasicBlock]map[*ssa.BasicBlock]bool{}
 	}
@@ -1184,4 +1190,13 @@ func (fc *FnCtx) escapeVal(v Val) {
 	if v.Loc != nil {
 		fc.escape(v.Loc.Base)
 	}
+}
+
+func sortedKeys[V any](m map[string]V) []string {
+	ks := make([]string, 0, len(m))
+	for k := range m {
+		ks = append(ks, k)
+	}
+	sort.Strings(ks)
+	return ks
 }
